@@ -259,7 +259,13 @@ def rule_time_text(ck):
         exh = Expander(P, h)
         for c in calls_in(P, h, 'csep.utils.time_utils.strptime_to_utc_epoch'):
             a_ = kw(c, 'format', 1)
-            fmts.append(const_value(exh.expand(a_)) if a_ is not None else None)
+            e_ = exh.expand(a_) if a_ is not None else None
+            if e_ is not None and is_marker(e_, '__elem__') and e_.args and isinstance(e_.args[0], (ast.Tuple, ast.List)) \
+                    and all(isinstance(const_value(x_), str) for x_ in e_.args[0].elts):
+                # one call inside a loop over a tuple of formats: every format of the tuple is tried
+                fmts.extend(const_value(x_) for x_ in e_.args[0].elts)
+            else:
+                fmts.append(const_value(e_) if e_ is not None else None)
             sites.append(h)
     g = sites[0] if sites else r0
     o = ck.ob('C14-D2.reader', g, fmts, g.node)
